@@ -52,6 +52,15 @@ structure AccPos where
   unclaimed : DecCoins
 deriving Repr, Inhabited
 
+/-- GHOST: bookkeeping events of the swap loop, in order: a fee charged at the current active liquidity, a tick crossing
+    (upwards = quote-for-base), a cursor move between initialised ticks.  Recorded for the lock-step comparison with the
+    accrual abstraction (`CLAccrual`); no handler reads it. -/
+inductive SwapEv where
+  | fee (f : Int)
+  | cross (up : Bool) (t : Int)
+  | move (t : Int)
+deriving Repr, Inhabited
+
 structure St where
   pools : List Pool := []
   positions : List Position := []
@@ -61,6 +70,7 @@ structure St where
   nextPool : Nat := 0
   nextPos : Nat := 0
   bank : Bank := Bank.empty
+  lastTrace : List SwapEv := []      -- GHOST: bookkeeping events of the last executed swap (read by the driver only)
 deriving Inhabited
 
 def poolAddr (id : Nat) : Addr := s!"pool:{id}"
@@ -372,6 +382,7 @@ structure SwapState where
   liq : Dec
   growthPerLiq : Dec      -- globalFeeGrowthPerUnitLiquidity
   feeTotal : Dec          -- globalFeeGrowth
+  trace : List SwapEv := []   -- GHOST
 deriving Repr, Inhabited
 
 /-- GetSqrtPriceLimit -/
@@ -416,7 +427,7 @@ def crossTick (s : St) (ss : SwapState) (bfq : Bool) (lim fee : Dec) (ti : TickI
     else pure s
   let net := if bfq then bfq_GetLiquidityDeltaSign lim fee ti.net else qfb_GetLiquidityDeltaSign lim fee ti.net
   let t := if bfq then bfq_NextTickAfterCrossing lim fee ti.tick else qfb_NextTickAfterCrossing lim fee ti.tick
-  return (s1, { ss with liq := Dec.add ss.liq net, tick := t })
+  return (s1, { ss with liq := Dec.add ss.liq net, tick := t, trace := ss.trace ++ [.cross (!bfq) ti.tick] })
 
 /-- the loop; `exactIn` selects OutGivenIn / InGivenOut bookkeeping -/
 def swapLoop (exactIn bfq upd : Bool) (lim fee : Dec) (tp : TickParams) (accVal : DecCoins) (denomIn : Denom) :
@@ -436,7 +447,7 @@ def swapLoop (exactIn bfq upd : Bool) (lim fee : Dec) (tp : TickParams) (accVal 
       -- exact-in: a = amountIn, b = amountOut; exact-out: a = amountOut, b = amountIn
       let (amtIn, amtOut) := if exactIn then (a, b) else (b, a)
       if next == start && !(amtIn.isZero && amtOut.isZero) then Res.err "no-sqrt-price-after-swap"
-      let ss1 := if upd then updateFeeGrowth ss feeCharge else ss
+      let ss1 := if upd then { updateFeeGrowth ss feeCharge with trace := ss.trace ++ [.fee feeCharge.raw] } else ss
       let ss2 := if exactIn then
           { ss1 with sqrtP := next, remaining := Dec.sub ss1.remaining (Dec.add amtIn feeCharge), calculated := Dec.add ss1.calculated amtOut }
         else
@@ -448,7 +459,7 @@ def swapLoop (exactIn bfq upd : Bool) (lim fee : Dec) (tp : TickParams) (accVal 
         else if (if bfq then tickPrice.raw > next.raw else tickPrice.raw < next.raw) then Res.err "invalid-computed-sqrt-price"
         else if !(start == next) then do
           let t ← sqrtPriceToTick next tp
-          pure (s, { ss2 with tick := t }, iter)
+          pure (s, { ss2 with tick := t, trace := ss2.trace ++ [.move t] }, iter)
         else pure (s, ss2, iter)
       let progressAmt := if exactIn then amtIn else amtOut
       if progressAmt.isZero then
@@ -479,10 +490,10 @@ def computeSwap (exactIn : Bool) (s : St) (pool : Nat) (denomIn denomOut : Denom
   let lim ← sqrtPriceLimit mLimit bfq
   let invalid := if bfq then bfq_ValidateSqrtPrice_err lim fee lim p.sqrtP else qfb_ValidateSqrtPrice_err lim fee lim p.sqrtP
   if invalid then Res.err "invalid-sqrt-price"
-  let ss0 : SwapState := ⟨Dec.ofInt amount, Dec.zero, p.sqrtP, p.tick, p.liq, Dec.zero, Dec.zero⟩
+  let ss0 : SwapState := ⟨Dec.ofInt amount, Dec.zero, p.sqrtP, p.tick, p.liq, Dec.zero, Dec.zero, []⟩
   let (s1, ss) ← swapLoop exactIn bfq upd lim fee p.tp acc.value denomIn LOOP_FUEL 0 s ss0 (tickIter s pool p.tick bfq)
   if ss.remaining.isNegative then Res.err "over-charge"
-  let s2 := if upd then setAccum s1 { acc with value := DecCoins.add acc.value [(denomIn, ss.growthPerLiq)] } else s1
+  let s2 := if upd then { setAccum s1 { acc with value := DecCoins.add acc.value [(denomIn, ss.growthPerLiq)] } with lastTrace := ss.trace } else s1
   let (ain, aout) :=
     if exactIn then (Dec.truncateInt (Dec.ceil (Dec.sub (Dec.ofInt amount) ss.remaining)), Dec.truncateInt ss.calculated)
     else (Dec.truncateInt (Dec.ceil ss.calculated), Dec.truncateInt (Dec.sub (Dec.ofInt amount) ss.remaining))
